@@ -662,8 +662,11 @@ def rule_faithful_state(ctx):
         k = 0
         for inner in ast.walk(setup.node):
             if isinstance(inner, ast.FunctionDef) and inner.name == "int_step_callback":
+                # the local converted from the integrator's raw vector (the callback's second parameter), whatever its name
+                yparam = inner.args.args[1].arg if len(inner.args.args) > 1 else None
                 for a in ast.walk(inner):
-                    if isinstance(a, ast.Assign) and isinstance(a.targets[0], ast.Name) and a.targets[0].id == "pt":
+                    if isinstance(a, ast.Assign) and isinstance(a.targets[0], ast.Name) and yparam is not None \
+                            and any(isinstance(y_, ast.Name) and y_.id == yparam for y_ in ast.walk(a.value)):
                         k += 1
                         sigs[f"integrator callback #{k}"] = (conversion(inner, a.value), f"{setup.module.relpath}:{a.lineno}")
     if "pt accessor" not in sigs or len(sigs) < 2:
